@@ -40,6 +40,7 @@ func c08Extra(c *Ctx) {
 		c08LookupNil(c, p, tp)
 	}
 	c08CommentMarkers(c)
+	c08TokenLoops(c, p, []*packages.Package{p.Pkg("internal/parser"), p.Pkg("internal/parser/w2parser"), p.Pkg("internal/wat/parser"), p.Pkg("internal/native/parser")})
 }
 
 func arrayLen(t types.Type) (int64, bool) {
